@@ -286,7 +286,7 @@ def clause_g(facts, rep):
                     return -v
                 raise KeyError(e_['op'])
             if k == 'cond':
-                return ev(e_['then'], env) if ev(e_['c'], env) else ev(e_['else'], env)
+                return ev(e_['a'], env) if ev(e_['c'], env) else ev(e_['b'], env)
             if k == 'call' and e_.get('cname') == 'RoundToOdd':
                 a = ev(e_['args'][1], dict(env, **{'noshift': True}))
                 kind = {4 * env[ps['c']] - 2: 'L', 4 * env[ps['c']]: 'M', 4 * env[ps['c']] + 2: 'R'}.get(a)
